@@ -383,9 +383,15 @@ func (eval RingPackingEvaluator) repack(cts map[int]*Ciphertext, naive bool) (ct
 
 		for j := 0; j < t; j++ {
 
-			if ctsLargeN[j] != nil || ctsLargeN[j+1] != nil {
+			if ctsLargeN[j] != nil || ctsLargeN[j+t] != nil {
 
 				ctN := NewCiphertext(eval.Parameters[logNMax-i], 1, level)
+
+				// Empty even half: merges the odd half with an encryption of zero
+				if ctsLargeN[j] == nil {
+					ctsLargeN[j] = NewCiphertext(eval.Parameters[logNMax-i-1], 1, level)
+					*ctsLargeN[j].MetaData = *ctsLargeN[j+t].MetaData
+				}
 
 				if err = eval.Merge(ctsLargeN[j], ctsLargeN[j+t], ctN); err != nil {
 					return nil, fmt.Errorf("eval.split(cts[%d]): %w", j, err)
